@@ -57,7 +57,7 @@ def _worker(args):
 
 def run(tier, seed, broken_proof=False):
     rng = random.Random(seed + 1313)
-    count = 36 if tier == "quick" else 300
+    count = 60 if tier == "quick" else 400
     violations = []
     strata = Counter()
     evals = 0
